@@ -43,6 +43,55 @@ var c12Fillers = []c12filler{
 	{"nil", "nil"}, {"const-int", "7"}, {"const-negative", "-1"}, {"const-float", "2.5"}, {"const-string", `"lit"`}, {"const-bool", "true"}, {"const-rune", "'c'"},
 	{"addr-slice", "&zSl"}, {"addr-map", "&zMap"}, {"addr-string", "&zStr"}, {"call-novalue", "noresult(1)"}, {"call-two-values", "divmod(7, 2)"},
 	{"type-int", "int"}, {"type-slice", "[]int"},
+	// named types defined from named types (two levels), and named directional channels
+	{"named2-int", "zN2Int"}, {"named2-float", "zN2Float"}, {"named2-string", "zN2Str"}, {"named2-bool", "zN2Bool"},
+	{"named2-slice", "zN2Sl"}, {"named2-array", "zN2Arr"}, {"named2-map", "zN2Map"}, {"named2-chan", "zN2Ch"}, {"named2-func", "zN2Fn"},
+	{"named2-struct", "zN2St"}, {"named-ptr", "zNPtr"}, {"named2-ptr", "zN2Ptr"}, {"named2-iface", "zN2If"},
+	{"named-chan-recvonly", "zNRo"}, {"named2-chan-recvonly", "zN2Ro"}, {"named-chan-sendonly", "zNSo"}, {"named2-chan-sendonly", "zN2So"},
+}
+
+// concrete types whose method set differs from the interface Sig (resp. Sig2) at one position
+var c12SigFillers = []c12filler{
+	{"sig-ok", "SigOK"}, {"sig-param0", "SigP0"}, {"sig-param1", "SigP1"}, {"sig-param2", "SigP2"}, {"sig-result0", "SigR0"}, {"sig-result1", "SigR1"},
+	{"sig-fewer-params", "SigFewP"}, {"sig-fewer-results", "SigFewR"}, {"sig-ptr-receiver", "SigPtr"}, {"sig-named-param0", "SigNamedP0"},
+	{"sig-named-result1", "SigNamedR1"}, {"sig-other-name", "SigOther"}, {"sig-no-method", "Point"},
+}
+var c12Sig2Fillers = []c12filler{
+	{"sig2-ok", "S2OK"}, {"sig2-A-param", "S2AP"}, {"sig2-A-result", "S2AR"}, {"sig2-B-param", "S2BP"}, {"sig2-B-result", "S2BR"}, {"sig2-no-B", "S2NoB"},
+}
+
+type c12formX struct {
+	c12form
+	Fill []c12filler
+}
+
+// forms with their own list of fillers: [20] impossible type assertions and [19] non-implementing values
+var c12FormsX = []c12formX{
+	{c12form{"20", "{\n\t\tv, ok := zSig.(%s)\n\t\tsink(v, ok)\n\t}", "SigOK", true}, c12SigFillers},
+	{c12form{"20", "sink(zSig.(%s))", "SigOK", true}, c12SigFillers},
+	{c12form{"20", "switch zSig.(type) {\n\tcase %s:\n\t}", "SigOK", true}, c12SigFillers},
+	{c12form{"20", "switch v := zSig.(type) {\n\tcase %s:\n\t\tsink(v)\n\t}", "SigOK", true}, c12SigFillers},
+	{c12form{"19", "{\n\t\tvar t Sig = %s{}\n\t\tsink(t)\n\t}", "SigOK", true}, c12SigFillers},
+	{c12form{"19", "sink(Sig(%s{}))", "SigOK", true}, c12SigFillers},
+	{c12form{"19", "zSig = %s{}", "SigOK", true}, c12SigFillers},
+	{c12form{"20", "{\n\t\tv, ok := zSig2.(%s)\n\t\tsink(v, ok)\n\t}", "S2OK", true}, c12Sig2Fillers},
+	{c12form{"20", "sink(zSig2.(%s))", "S2OK", true}, c12Sig2Fillers},
+	{c12form{"20", "switch zSig2.(type) {\n\tcase %s:\n\t}", "S2OK", true}, c12Sig2Fillers},
+	{c12form{"19", "{\n\t\tvar t Sig2 = %s{}\n\t\tsink(t)\n\t}", "S2OK", true}, c12Sig2Fillers},
+	{c12form{"19", "zSig2 = %s{}", "S2OK", true}, c12Sig2Fillers},
+}
+
+// every form with the fillers that apply to it
+func c12AllForms() []c12formX {
+	var all []c12formX
+	for _, f := range c12Forms {
+		fl := c12Fillers
+		if f.Types {
+			fl = c12TypeFillers
+		}
+		all = append(all, c12formX{f, fl})
+	}
+	return append(all, c12FormsX...)
 }
 
 var c12TypeFillers = []c12filler{
@@ -123,7 +172,7 @@ func c12SweepProgram() (src string, lines []string) {
 	b.WriteString("package main\n")
 	b.WriteString(c12Prelude)
 	b.WriteString("\n" + c12PreludeEndMarker + "\n\nfunc sweep() {\n\tsweepClose := make(chan int)\n")
-	for _, f := range c12Forms {
+	for _, f := range c12AllForms() {
 		l := "\t" + strings.ReplaceAll(f.Tmpl, "%s", f.Orig) + "\n"
 		l = strings.ReplaceAll(l, "%%", "%")
 		lines = append(lines, l)
@@ -136,12 +185,8 @@ func c12SweepProgram() (src string, lines []string) {
 
 func c12SweepMutants() (orig string, muts []c12sweepMutant) {
 	src, lines := c12SweepProgram()
-	for i, f := range c12Forms {
-		fillers := c12Fillers
-		if f.Types {
-			fillers = c12TypeFillers
-		}
-		for _, fl := range fillers {
+	for i, f := range c12AllForms() {
+		for _, fl := range f.Fill {
 			if fl.Expr == f.Orig {
 				continue
 			}
